@@ -368,6 +368,10 @@ class ContextRecord(_Rec):
         st.check("canary", z3.BoolVal(False), kind="canary")
 
 
-from .C02 import AsyncScope as _AsyncScope, variant as _variant      # noqa: E402
+from .C02 import AsyncScope as _AsyncScope, SyncScope as _SyncScope, variant as _variant      # noqa: E402
 
-CONTRACTS = [Record(), Read(), Metrics(), MergeStep(), ContextRecord(), _variant(_AsyncScope, "C10", ("C10-",))]
+# "lands in the innermost scope active in the recording task at that moment": inside a block the scope's own metrics are
+# current (C02-P0) and after a nested block - however it ended - the metrics variable is the enclosing scope again
+_c10 = lambda n: n.startswith(("C10-", "C02-P0")) or "MetricsContext-variable-is-what-it-was" in n   # noqa: E731
+CONTRACTS = [Record(), Read(), Metrics(), MergeStep(), ContextRecord(), _variant(_AsyncScope, "C10", _c10),
+             _variant(_SyncScope, "C10", _c10)]
